@@ -19,3 +19,6 @@ ENGINES = [
 ]
 
 NOT_CLAIMED: dict = {}
+
+# Checks are claimed in MANIFEST.json only once the lead has reviewed them on the unchanged tree.
+READY = ["C05", "C25", "C26", "C27"]
